@@ -140,6 +140,17 @@ pub fn layout(p: &Prog, name: &str) -> Layout {
                 g.post = if i % 3 == 0 { "  ".into() } else { String::new() };
             }
         }
+        "cmtuni" => {
+            // comments with multi-byte and astral characters in every second gap, code after them on the same line start
+            for (i, g) in gaps.iter_mut().enumerate() {
+                g.post = sep(i, " ");
+                if i % 2 == 0 {
+                    g.pre = if i == 0 { String::new() } else { " ".into() };
+                    g.comments = vec![format!(" \u{fc}\u{20ac}\u{1F600} c{i}")];
+                    g.post = String::new();
+                }
+            }
+        }
         other => {
             for (i, g) in gaps.iter_mut().enumerate() {
                 g.post = sep(i, " ");
